@@ -453,9 +453,16 @@ func (ex *Exec) loopHead(fr *Frame, li *loopInfo, st *State) {
 	if li.reanchored && li.riOrdinal > 0 && rangeIndexAlloc(li) == nil && !li.autoInvDone {
 		li.autoInvDone = true
 		if inv := counterBoundInvariant(fr.fn, li); inv != nil {
-			spec := *li.spec
-			spec.Invariants = append(append([]*Clause{}, li.spec.Invariants...), inv)
-			li.spec = &spec
+			if fr.synthLocals == nil {
+				fr.synthLocals = map[string]*ssa.Alloc{}
+			}
+			fr.synthLocals[fmt.Sprintf("gocvctr%d", li.number)] = counterOf(fr.fn, li)
+			// only if the clause can be evaluated here (the bound may name something the verifier cannot resolve)
+			if _, ok := ex.trySpecBool(fr, st, inv); ok {
+				spec := *li.spec
+				spec.Invariants = append(append([]*Clause{}, li.spec.Invariants...), inv)
+				li.spec = &spec
+			}
 		}
 	}
 	// init
